@@ -56,10 +56,12 @@ fn vk_gcdo_root_sq_add<const N: usize, const M: usize>(s: &[Word; N], r: &[Word;
     out
 }
 
-fn vk_gcdo_root_check<const N: usize, const M: usize>() {
-    let mut a = [0 as Word; M];
+fn vk_gcdo_root_check<const N: usize, const M: usize>(ones_from: usize) {
+    // words below `ones_from` come from the palette, the words from `ones_from` up are all ones (the `q_top` region: the
+    // normalized upper part is B^k - 1, its root remainder carries, and the quotient estimate reaches B^split)
+    let mut a = [Word::MAX; M];
     let mut i = 0;
-    while i < M {
+    while i < M && i < ones_from {
         a[i] = vk_gcdo_root_palette_word();
         i += 1;
     }
@@ -108,19 +110,28 @@ fn vk_gcdo_root_check<const N: usize, const M: usize>() {
 #[cfg_attr(not(kani), test)]
 #[cfg_attr(kani, kani::unwind(10))]
 fn vk_gcdo_root_sqrt_rem_4w() {
-    vk_gcdo_root_check::<2, 4>();
+    vk_gcdo_root_check::<2, 4>(4);
 }
 
 #[cfg_attr(kani, kani::proof)]
 #[cfg_attr(not(kani), test)]
 #[cfg_attr(kani, kani::unwind(10))]
 fn vk_gcdo_root_sqrt_rem_6w() {
-    vk_gcdo_root_check::<3, 6>();
+    vk_gcdo_root_check::<3, 6>(6);
+}
+
+// quick-tier slice of the 6-word domain: upper four words all ones (r1_top / q_top handling, `2 * split < n`), the two low
+// words from the palette
+#[cfg_attr(kani, kani::proof)]
+#[cfg_attr(not(kani), test)]
+#[cfg_attr(kani, kani::unwind(10))]
+fn vk_gcdo_root_sqrt_rem_6w_qtop() {
+    vk_gcdo_root_check::<3, 6>(2);
 }
 
 #[cfg_attr(kani, kani::proof)]
 #[cfg_attr(not(kani), test)]
 #[cfg_attr(kani, kani::unwind(10))]
 fn vk_gcdo_root_sqrt_rem_8w() {
-    vk_gcdo_root_check::<4, 8>();
+    vk_gcdo_root_check::<4, 8>(8);
 }
